@@ -8,7 +8,7 @@ CONSTANTS
   WIds = {5}
   LMode = "mixed"
   ECodes = {0, 1}
-  TCodes = {12,31}
+  TCodes = {12,33}
   QuadIds = {2}
   ClampE = 15
   SlackE = 14
